@@ -602,7 +602,7 @@ func leafOps(n *Node) []string {
 	if len(set) == 0 {
 		n.walk(func(x, p *Node, _ int, _ bool) {
 			if p != nil && len(x.Items) == 0 {
-				set["frame:"+x.Kind+"/"+x.End] = true
+				set["frame:"+x.Kind] = true
 			}
 		}, nil, 0, false)
 	}
@@ -630,7 +630,7 @@ func removeLeafOps(n *Node, culprits []string) *Node {
 					continue
 				}
 			} else {
-				if m["frame:"+it.Child.Kind+"/"+it.Child.End] {
+				if m["frame:"+it.Child.Kind] {
 					continue
 				}
 				rec(it.Child)
